@@ -373,3 +373,40 @@ func confusableAllowed(t *Tree) []string {
 	cand = append(cand, "Apache-2.0", "GPL-3.0-only", "GPL-3.0-only WITH Classpath-exception-2.0")
 	return uniq(cand)
 }
+
+// scaleTrees: wide and deep expressions (thresholds, fixed-size buffers, recursion limits)
+func scaleTrees(r *SM64, thorough bool) []*Tree {
+	var out []*Tree
+	sizes := []int{33, 65, 130, 257}
+	if thorough {
+		sizes = append(sizes, 513, 1025)
+	}
+	pool := []string{"MIT", "ISC", "Zlib", "Apache-2.0", "GPL-2.0-only", "LicenseRef-x", "BSD-3-Clause", "0BSD", "Apache-1.0-or-later", "MPL-2.0+"}
+	for _, n := range sizes {
+		chain := func(op byte, right bool) *Tree {
+			t := leaf(pool[r.Intn(len(pool))])
+			for i := 1; i < n; i++ {
+				l := leaf(pool[r.Intn(len(pool))])
+				if right {
+					t = &Tree{Op: op, L: l, R: t}
+				} else {
+					t = &Tree{Op: op, L: t, R: l}
+				}
+			}
+			return t
+		}
+		out = append(out, chain('A', true), chain('O', true), chain('A', false), chain('O', false))
+		// alternating nest of depth n
+		t := leaf("MIT")
+		for i := 0; i < n; i++ {
+			if i%2 == 0 {
+				t = or(leaf(pool[r.Intn(len(pool))]), and(t, leaf(pool[r.Intn(len(pool))])))
+			} else {
+				t = and(or(t, leaf(pool[r.Intn(len(pool))])), leaf(pool[r.Intn(len(pool))]))
+			}
+		}
+		out = append(out, t)
+		out = append(out, label(randTree(r, n), pool, new(int)))
+	}
+	return out
+}
